@@ -29,7 +29,7 @@ MIN_COUNTERS = {
     "thorough": {"sim_runs": 100000, "accepted": 5000, "rejected_in_run": 5000, "rejected_at_end": 1000},
 }
 
-PLACEMENTS = ("top", "setup", "sub", "sub_long", "compose_sub", "compose_top")
+PLACEMENTS = ("top", "setup", "sub", "sub_long", "compose_sub", "compose_top", "top_limit", "sub_limit")
 
 TEMPLATES = {
     "top": """
@@ -94,6 +94,32 @@ scenario Main():
 """,
 }
 TEMPLATES["sub_long"] = TEMPLATES["sub"]
+# scope ended by `terminate after`: the state of the step at which the limit expires still counts
+TEMPLATES["top_limit"] = """
+import verif_script as V
+ego = new Object
+terminate after {D} steps
+require {F}
+"""
+TEMPLATES["sub_limit"] = """
+import verif_script as V
+scenario Sub():
+    setup:
+        terminate after {D} steps
+        require {F}
+    compose:
+        while True:
+            wait
+scenario Main():
+    setup:
+        ego = new Object
+    compose:
+        for _i in range({S}):
+            wait
+        do Sub()
+        while True:
+            wait
+"""
 
 
 def _formulas(tier, seed):
@@ -208,6 +234,8 @@ def expected_window(placement, L, S, D):
     """(first step, last step) of the requirement's scope; None if the statement never takes effect."""
     if placement in ("top", "setup"):
         return (0, L - 1)
+    if placement == "top_limit":
+        return (0, min(D, L - 1))
     if S > L - 1:
         return None  # simulation ends before the statement runs
     return (S, min(S + D, L - 1)) if placement != "compose_top" else (S, L - 1)
@@ -243,7 +271,7 @@ def judge(f, placement, tr, S, D, outcome):
         return None
     # rejected
     trej = 0 if kind == "genreject" else t
-    if kind == "genreject" and placement not in ("top", "setup"):
+    if kind == "genreject" and placement not in ("top", "setup", "top_limit"):
         return (None, "scene generation rejected although the requirement is dynamic")
     if trej is None:
         return (None, "rejection without a simulation attached")
@@ -297,8 +325,10 @@ def run_shard(spec):
         traces = _traces(na, tier, rng)
         for placement in PLACEMENTS:
             style = "min" if rng.random() < 0.7 else "full"
-            S = rng.choice((0, 1, 2)) if placement != "top" else 0
+            S = rng.choice((0, 1, 2)) if placement not in ("top", "top_limit") else 0
             D = rng.choice((0, 1, 2)) if placement != "sub_long" else 50
+            if placement in ("top_limit", "sub_limit"):
+                D = rng.choice((1, 2, 3))
             try:
                 src, scenario = _compile(f, placement, style, S, D)
             except Exception as e:
